@@ -26,6 +26,8 @@ for p in props:
                 e = sigs.setdefault(d["signature"], {"seeds": [], "detail": d["detail"], "count": 0})
                 e["seeds"].append(s)
                 e["count"] += d.get("count", 1)
+                if "unlisted_corpus_indices" in d:
+                    e["corpus_indices"] = sorted(set(e.get("corpus_indices", [])) | set(d["unlisted_corpus_indices"]))
             elif line.startswith("KNOWN-FINDING"):
                 pass
         tail = [l for l in r.stderr.splitlines() if l.startswith(p + " ")]
